@@ -748,6 +748,29 @@ impl Store {
         value: ValueEntry,
         force: bool,
     ) -> StoreResult<(bool, Option<Vec<AffectedLsSubscribers>>)> {
+        let res = self.do_insert(path, value, force);
+        if res.is_err() {
+            // a rejected insert must not leave the empty nodes behind that were created for it
+            Store::ntrim_path(&mut self.data, path);
+        }
+        res
+    }
+
+    fn ntrim_path(node: &mut StoreNode, relative_path: &[RegularKeySegment]) {
+        if let Some((head, tail)) = relative_path.split_first()
+            && let Some(next) = node.get_child_mut(head)
+        {
+            Store::ntrim_path(next, tail);
+            node.trim();
+        }
+    }
+
+    fn do_insert(
+        &mut self,
+        path: &[RegularKeySegment],
+        value: ValueEntry,
+        force: bool,
+    ) -> StoreResult<(bool, Option<Vec<AffectedLsSubscribers>>)> {
         let mut ls_subscribers: Option<Vec<(Vec<LsSubscriber>, &[String])>> = None;
         let mut current_node = &mut self.data;
         let mut current_subscribers = Some(&self.subscribers);
